@@ -129,6 +129,11 @@ fn some<T>(e: Exp<Option<T>>) -> Exp<T> {
 
 /// Expectation for a whole frame. Err dominates Unknown.
 pub fn frame_expectation(v: &Value) -> Exp<RefFrame> {
+    frame_expectation_opt(v, true)
+}
+
+/// `with_id` = false: the consumer's type has no `id` field (it is then an ignored unknown key)
+pub fn frame_expectation_opt(v: &Value, with_id: bool) -> Exp<RefFrame> {
     let o = match v.as_object() {
         Some(o) => o,
         None => return Exp::Err("frame is not an object"),
@@ -152,6 +157,7 @@ pub fn frame_expectation(v: &Value) -> Exp<RefFrame> {
     }
     let zero: Num = (BigInt::from(0), 0);
     let id = match o.get("id") {
+        _ if !with_id => u64::MAX,
         None => {
             err.get_or_insert("missing field id");
             0
